@@ -15,7 +15,7 @@ func init() {
 		Explanation: "Decided: the cursor's movement functions treat 'landed on an empty leaf' and 'ran off the end' on every path — after every raw descent (goToFirstElementOnTheStack / last / seek) no return is reached before the emptiness of the leaf (or a one-level stack) was tested; next and prev agree on re-positioning and on leaving a usable position when exhausted; " +
 			"every loop driven by a cursor advance has an exit that depends on the key the advance returned (a loop that ignores exhaustion cannot terminate once every leaf is empty); ordering rests on lower-bound predicates over bytes.Compare and the branch-search step-back (tabulated). " +
 			"Nested buckets are reported with a nil value: every return of a value taken from a raw cursor step is guarded by a bucket-bit test of that step's own flags (R5). " +
-			"NOT decided: that First/Next/Prev/Seek agree with a sorted list in general; termination beyond the exhaustion discipline (no termination prover is available). Round 3: a value truncated to an on-disk field width (uint16 element index) never indexes or sizes an in-memory collection — a materialised node holds more than 65535 inodes before it is split.",
+			"NOT decided: that First/Next/Prev/Seek agree with a sorted list in general; termination beyond the exhaustion discipline (no termination prover is available). Round 3: a value truncated to an on-disk field width (uint16 element index) never indexes or sizes an in-memory collection — a materialised node holds more than 65535 inodes before it is split. Round 4: First, Last and Seek restart from the bucket's current root on every path.",
 		Run: func(c *Ctx) {
 			debugNarrowing(c)
 			ruleAbsolutePositioningRestarts(c, "C05.R7")
